@@ -44,7 +44,7 @@ ASSUMPTIONS = [
 ]
 PROBES = ["reconnect", "late-finaliser", "two-in-flight", "send-races-disconnect", "nonblocking-recv-empty", "nonblocking-recv-got", "callback-delivery",
           "structured", "silent", "broadcast", "broadcast-poll", "three-endpoints", "two-socket-ids", "connection-error-after-disconnect",
-          "recv-timeout", "lock-contended", "stalled-thread", "late-starter"]
+          "recv-timeout", "lock-contended", "stalled-thread", "late-starter", "connect-timeout-then-retry"]
 
 _mods: Dict[str, Any] = {}
 
@@ -103,6 +103,11 @@ def gen_scenario(ch: Choices, calm: bool, no_cb_reconnect: bool = False, tier: s
     for (x, y, sid) in chans:
         for (r, s) in ((x, y), (y, x)):
             callback[(s, r, sid)] = (not calm) and ch.flag(1, 5, "cb")   # receiver r of direction s->r uses callbacks
+    impatient = set()
+    if not calm and "connect-timeout-retry" not in avoid:
+        for (x, y, sid) in chans:
+            if not (callback[(x, y, sid)] or callback[(y, x, sid)]) and ch.flag(1, 6, "impatient"):
+                impatient.add((x, y, sid) if ch.flag(1, 2, "impwho") else (y, x, sid))
     budget = {n: (10 if deep else 4) for n in names}
     inflight: Dict[Tuple[str, str, int], int] = {}
     dropped: set = set()
@@ -140,7 +145,7 @@ def gen_scenario(ch: Choices, calm: bool, no_cb_reconnect: bool = False, tier: s
             budget[x] -= 1
             reconnects.append((x, y, sid))
     return {"names": names, "broadcast": False, "script": script, "chans": chans, "callback": callback,
-            "reconnect": bool(reconnects)}
+            "reconnect": bool(reconnects), "impatient": sorted(impatient)}
 
 
 def run(ch: Choices, opts: Dict[str, Any]) -> Dict[str, Any]:
@@ -197,6 +202,7 @@ def run(ch: Choices, opts: Dict[str, Any]) -> Dict[str, Any]:
               "callback_receivers": [list(k) for k, v in sc["callback"].items() if v], "switch": sw}
 
     created: List[Any] = []
+    tries_done = [0]
 
     late: List[tuple] = []
 
@@ -283,6 +289,26 @@ def run(ch: Choices, opts: Dict[str, Any]) -> Dict[str, Any]:
                 return
             mine = [(x, y, sid) for (x, y, sid) in sc["chans"] if me in (x, y)]
             order = list(mine)
+            # phase 0 (injected fault: the peer is not there yet): impatient endpoints try to connect with a quarter-second
+            # time-out while every other endpoint is still held back, give up, and only then does the scenario proper start
+            for (x0, y0, sid0) in sc.get("impatient", ()):
+                if x0 != me:
+                    continue
+                e0 = record(me, ("connect_try", y0, sid0))
+                try:
+                    tmp = TSock(me, y0, socket_id=sid0, timeout=0.25)
+                    del tmp
+                    finish(e0, exc="connected-to-an-absent-peer")
+                except TimeoutError:
+                    finish(e0, "timed-out")
+                    bump(faults, "connect-attempt-timed-out")
+                    bump(probes, "connect-timeout-then-retry")
+                except Exception as x2:  # noqa: BLE001
+                    finish(e0, exc=type(x2).__name__)
+                gc.collect()
+            tries_done[0] += 1
+            while tries_done[0] < len(names):
+                sched.sleep(0.05)
             for (x, y, sid) in order:
                 peer = y if me == x else x
                 usecb = sc["callback"].get((peer, me, sid), False)
